@@ -446,6 +446,38 @@ func init() {
 			return false, ""
 		}
 		pl := w.replay
+		// a clause about ghost state (or about globals the harness does not set up) is not decided by the
+		// function's inputs and outputs: equal outputs would not show the violation
+		if o.Clause != nil && w.topContract != nil {
+			ghostly := false
+			seen := map[string]bool{}
+			var walk func(e *CExpr)
+			walk = func(e *CExpr) {
+				if e == nil {
+					return
+				}
+				if e.Op == "id" {
+					if _, isGhost := w.specs.Ghosts[e.Name]; isGhost {
+						ghostly = true
+					}
+					if !seen[e.Name] {
+						seen[e.Name] = true
+						for _, ld := range w.topContract.Lets {
+							if ld.Name == e.Name {
+								walk(ld.Expr)
+							}
+						}
+					}
+				}
+				for _, a := range e.Args {
+					walk(a)
+				}
+			}
+			walk(o.Clause.Expr)
+			if ghostly || len(pl.fn.Params) == 0 {
+				return false, "the violated clause speaks about state the replay harness cannot observe"
+			}
+		}
 		src0 := o.Result.Output
 		if o.Result.Status != "sat" && o.Relaxed != nil {
 			src0 = o.Relaxed.Output
